@@ -47,6 +47,9 @@ type Step struct {
 	Probes []Probe       `json:"probes,omitempty"` // probe / release / spawn
 	Sched  *Sched        `json:"sched,omitempty"`  // load (perturbation inside the hook) / control
 	States []StateThread `json:"states,omitempty"` // states
+	// nested-load: Filter is loaded on Thread; when that load reaches the schedule point between its preparation and the
+	// installation, Inner (a load on another command thread) is executed completely, then the outer load continues.
+	Inner *Step `json:"inner,omitempty"`
 }
 
 // Job is what one child executes.
